@@ -509,9 +509,15 @@ def creation_case(text, prefix, first, rest, creatable, pkind, api, value, sep):
              "get_nodes(path, mustexist=True) returns exactly one node equal to %r" % (value,))
     # created part against the model
     model_rest = model_created(list(rest), value)
-    cont = _navigate(data, prefix)
-    if cont is not parent:
-        fail("frame-changed", "prefix-container-replaced", "%s: container at the prefix is a new object" % ptext,
+    try:
+        cont = _navigate(data, prefix)
+    except (KeyError, IndexError, TypeError):
+        cont = None
+    if cont is None:
+        fail("frame-changed", "", "prefix no longer resolves: %s -> %r, before %r" % (ptext, after_plain, plain0),
+             "the existing prefix still leads to the same container")
+    elif cont is not parent:
+        fail("frame-changed", "", "%s: container at the prefix is a new object" % ptext,
              "same container object, extended")
     elif first[0] == "key":
         newkeys = [k for k in cont.keys() if str(k) == str(first[1])]
@@ -529,7 +535,7 @@ def creation_case(text, prefix, first, rest, creatable, pkind, api, value, sep):
     # frame: with the created part removed nothing differs from before
     d = diff_class(s0, _strip(s1, cid, first, old_len))
     if d:
-        fail("frame-changed", d, "%s -> %r, before %r" % (ptext, after_plain, plain0),
+        fail("frame-changed", "", "%s: %s -> %r, before %r" % (d, ptext, after_plain, plain0),
              "apart from the created tail: same objects, values, order")
     if exc is not None:
         if failures or exc[0] == "yp":
